@@ -10,7 +10,9 @@ from ..ruleprops import violation
 
 RULE = ("seeded structured elections x (any shipped measure incl. Chamberlin-Courant and sqrt/log of cost, tie rule, Profile/MultiProfile, "
         "initial allocation, additivity flag None/True/False, resolute/irresolute); predicate = independent round-by-round greedy + "
-        "exhaustiveness recomputed; non-trivial = at least 2 projects bought and at least one project left out")
+        "exhaustiveness recomputed; plus an exact-arithmetic stress stream (costs proportional to support by a non-dyadic rational factor: "
+        "integral and fractional costs tied on satisfaction per cost with a budget that fits only some; cardinal scores above 2**53 whose "
+        "totals differ by a unit); non-trivial = at least 2 projects bought and at least one project left out")
 ASSUMPTIONS = ["non-negative utilities", "feasible initial allocation", "exact-arithmetic mode"]
 TRUSTED = ["log measures: set-function values dumped from the library's own measure objects"]
 
@@ -96,16 +98,34 @@ def pairs(ctx, n):
         yield case, cfg
 
 
+def exact_pairs(ctx, n):
+    rng = ctx.rng
+    for _ in range(n):
+        if rng.random() < 0.7:
+            case = core.gen_proportional_election(rng, btypes=("app", "app", "card"))
+            ctx.count("stream", "exact:proportional-costs")
+        else:
+            case = core.gen_huge_election(rng)
+            ctx.count("stream", "exact:huge-scores")
+        cfg = rulegen.gen_count_cfg(rng, case, rules=("greedy",), allow_refuse=False)
+        if not cfg["res"] and len(case.projects) > 5:
+            cfg["res"] = True
+        yield case, cfg
+
+
 def run(ctx):
     ctx.rule = RULE
     items = ruleprops.run_items(ctx, pairs(ctx, ctx.scale(1500, 12000)), predicate, nontrivial)
     history.run_history(ctx, "greedy", ctx.scale(300, 3000))
+    # exact-arithmetic stress: ties at ratios no binary float holds, between costs of different kinds; huge magnitudes
+    items += ruleprops.run_items(ctx, exact_pairs(ctx, ctx.scale(1500, 10000)), predicate, nontrivial)
     ctx.extra["additive_flag"] = {str(k): sum(1 for it in items if it.cfg.get("additive") == k) for k in (None, True, False)}
 
 
 def search(ctx, disagreements):
     ctx.rule = RULE
     ruleprops.run_items(ctx, pairs(ctx, 8000), predicate, nontrivial, compare=False)
+    ruleprops.run_items(ctx, exact_pairs(ctx, 6000), predicate, nontrivial, compare=False)
 
 
 def replay(payload):
